@@ -1,8 +1,11 @@
 """C07 — obstacle / lanelet assignment is geometrically correct and invertible.
 
-case   = {"net": strip-road parameters, "obs": [obstacle specs], "read": None | {"fmt", "os"}, "ops": [...]}
+case   = {"net": strip-road parameters, "obs": [obstacle specs], "read": None | {"fmt", "os", "la"}, "ops": [...]}
          ops: add o | remove o | assign(time_steps, obstacle_ids, use_center_only); "read": the scenario is opened from a
-         file (XML / protobuf) that holds the obstacles "os", with lanelet_assignment=True.
+         file (XML / protobuf) that holds the obstacles "os", with lanelet_assignment="la" (default True; False: the
+         obstacles of the file come without any assignment and the history assigns them).
+         An obstacle spec holds the poses [x, y, orientation] of the trajectory states; consecutive poses may share the
+         position and / or the orientation (standing still, turning on the spot, sliding, coming back to an earlier pose).
 oracle = the property statement, executable, against the real Scenario after every operation:
          (1) an admissible operation does not raise; (2) after an assignment the recorded centre / shape lanelet sets of
          every requested (obstacle, time step of its horizon) equal a brute-force geometric answer (shapely polygons
@@ -47,13 +50,18 @@ from commonroad.scenario.trajectory import Trajectory
 
 RULE = ("histories (1-14 operations) over a generated road (1-3 lanes x 1-3 segments, straight or curved, optionally a "
         "crossing road so that lanelets overlap) and a universe of 1-5 obstacles (static / dynamic with a trajectory "
-        "prediction of 1-4 states / dynamic without prediction; rectangle, circle, polygon, shape group; centred and "
-        "off-centre shapes; placed on a lane, straddling a lane boundary, partly or completely off the road; initial "
-        "time steps 0-3): add_objects, remove_obstacle (contained obstacles, rarely an absent one), "
+        "prediction of 1-6 states / dynamic without prediction; rectangle, circle, polygon, shape group; centred and "
+        "off-centre shapes, 1 in 3 long and thin (6-14 m x 0.4-1.6 m) so that the lanelets met depend on the "
+        "orientation; placed on a lane, straddling a lane boundary, partly or completely off the road; initial "
+        "time steps 0-3; trajectories made of driving / sliding (orientation kept) / standing still (pose repeated) / "
+        "turning on the spot (position kept, orientation changed) / returning to an earlier pose, the first state "
+        "possibly at the initial pose): add_objects, remove_obstacle (contained obstacles, rarely an absent one), "
         "assign_obstacles_to_lanelets(time_steps None / subsets incl. steps outside the horizon, obstacle_ids None / "
-        "subsets, use_center_only in 1 of 5 histories), and in 1 of 3 histories the scenario is opened from an XML or "
-        "protobuf file with lanelet_assignment=True.  evaluations = operations; distinct = distinct histories; "
-        "non-trivial = the history contains an assignment and a removal")
+        "subsets, use_center_only in 1 of 5 histories), and in 2 of 5 histories the scenario is opened from an XML or "
+        "protobuf file, 3 of 4 times with lanelet_assignment=True, else without (then assigned by the history).  Every "
+        "route (assign on built objects, assign on objects read from a file, XML reader, protobuf reader) is judged "
+        "per time step against the brute-force geometry of the state of THAT time step.  evaluations = operations; "
+        "distinct = distinct histories; non-trivial = the history contains an assignment and a removal")
 ASSUME = ["the obstacles do not move and the lanelet network does not change during a history (re-assignment after "
           "translate_rotate / a new initial state is outside the quantifier of C07: stale registry entries remain, "
           "see design.d/C07.md)",
@@ -147,7 +155,8 @@ def new_scenario():
 
 
 def open_with_assignment(case):
-    """writes the network and the obstacles case['read']['os'] to a file and opens it with lanelet_assignment=True"""
+    """writes the network and the obstacles case['read']['os'] to a file and opens it with lanelet_assignment=True
+    (or False when case['read']['la'] is False)"""
     rd = case["read"]
     scw = new_scenario()
     scw.add_objects(build_net(case["net"]))
@@ -161,7 +170,7 @@ def open_with_assignment(case):
         with contextlib.redirect_stdout(io.StringIO()):
             CommonRoadFileWriter(scw, PlanningProblemSet(), "a", "b", "c", {Tag.URBAN}, file_format=ff) \
                 .write_to_file(path, OverwriteExistingFile.ALWAYS, check_validity=False)
-            sc, _ = CommonRoadFileReader(path, file_format=ff).open(lanelet_assignment=True)
+            sc, _ = CommonRoadFileReader(path, file_format=ff).open(lanelet_assignment=rd.get("la", True))
     finally:
         logging.disable(logging.NOTSET)
     return sc
@@ -227,6 +236,21 @@ class Geo:
                 self.centre[(od["id"], t)] = self._sets(pt, pt)
                 self.shape[(od["id"], t)] = self._sets(shape_geoms(occ), shape_geoms(occ, outer=True))
         self.stats = {"placements": len(self.shape)}
+        for od in case["obs"]:
+            if od["role"] != "traj":
+                continue
+            poses = [od["init"]] + od["states"]
+            for i in range(1, len(poses)):
+                a, b = poses[i - 1], poses[i]
+                same_p, same_o = a[:2] == b[:2], a[2] == b[2]
+                k = "consecutive states: " + ("same pose" if same_p and same_o else
+                                              "same position, other orientation" if same_p else
+                                              "moved, same orientation" if same_o else "moved and turned")
+                self.stats[k] = self.stats.get(k, 0) + 1
+                ta, tb = od["t0"] + i - 1, od["t0"] + i
+                if same_p and self.shape[(od["id"], ta)][0] != self.shape[(od["id"], tb)][0]:
+                    k = "consecutive states at the same position that meet different lanelets"
+                    self.stats[k] = self.stats.get(k, 0) + 1
         for key, (sy, _) in self.shape.items():
             cy = self.centre[key][0]
             for name, hit in (("shape on more lanelets than the centre", len(sy) > len(cy)),
@@ -305,6 +329,10 @@ def op_name(case, op):
     if op["op"] == "remove":
         return f"remove_obstacle({'static' if by_id[op['o']]['role'] == 'static' else 'dynamic'})"
     return f"assign_obstacles_to_lanelets(use_center_only={op['c']})"
+
+
+def read_name(case):
+    return f"open({case['read']['fmt']}, lanelet_assignment={bool(case['read'].get('la', True))})"
 
 
 def has_group(case, ids):
@@ -448,7 +476,7 @@ def execute(case, chooser=None):
             sc = open_with_assignment(case)
         except (KeyError, AttributeError, AssertionError, TypeError, ValueError, IndexError) as e:
             kinds = " [ShapeGroup obstacle]" if has_group(case, case["read"]["os"]) else ""
-            return ((f"open({case['read']['fmt']}, lanelet_assignment=True):raises {type(e).__name__}{kinds}",
+            return ((f"{read_name(case)}:raises {type(e).__name__}{kinds}",
                      f"reading a file with obstacles {case['read']['os']} raised {type(e).__name__}: {str(e)[:120]}"),
                     trace, info)
         for o in case["read"]["os"]:
@@ -475,9 +503,12 @@ def execute(case, chooser=None):
     snap = observe(sc, O)
     if case.get("read"):
         trace.append(("read", None, snap))
-        name = f"open({case['read']['fmt']}, lanelet_assignment=True)"
-        pairs = [(o, t) for o in case["read"]["os"] for t in geo.horizon[o]]
-        pr = check_recorded(case, geo, snap, pairs, False)
+        name = read_name(case)
+        pr = None
+        if case["read"].get("la", True):   # clause (2) for the reader: every state of the file, judged on its own
+            pairs = [(o, t) for o in case["read"]["os"] for t in geo.horizon[o]]
+            pr = check_recorded(case, geo, snap, pairs, False)
+        # (lanelet_assignment=False: nothing has to be recorded yet; clauses (3) and (4) judge whatever is)
         failure = (f"{name}:{pr[0]}", pr[1]) if pr else state_clauses(snap, name)
     ops = case["ops"]
     step = 0
@@ -552,9 +583,24 @@ def r3(rng, lo, hi):
     return round(rng.uniform(lo, hi), 3)
 
 
-def gen_shape(rng, allow_group=True, offc=False):
+def gen_shape(rng, allow_group=True, offc=False, long=False):
+    """long: a long thin shape (truck, trailer, tram): which lanelets it meets depends on its orientation"""
     k = rng.choice(["rect", "rect", "rect", "circ", "poly"] + (["group"] if allow_group else []))
     c = [r3(rng, -2.5, 2.5), r3(rng, -4.0, 4.0)] if offc else [0.0, 0.0]
+    if long and k == "circ":
+        k = "rect"
+    if long and k == "rect":
+        return {"k": "rect", "l": r3(rng, 6.0, 14.0), "w": r3(rng, 0.4, 1.6), "c": c,
+                "o": r3(rng, -1.5, 1.5) if offc else 0.0}
+    if long and k == "poly":  # a thin quadrilateral along a random axis through c, slightly irregular
+        hl, hw, a = r3(rng, 3.0, 7.0), r3(rng, 0.2, 0.8), (rng.uniform(-1.5, 1.5) if offc else 0.0)
+        ca, sa = math.cos(a), math.sin(a)
+        return {"k": "poly", "v": [[round(c[0] + ca * dx - sa * dy, 3), round(c[1] + sa * dx + ca * dy, 3)]
+                                   for dx, dy in ((-hl, -hw), (hl * rng.uniform(0.8, 1.0), -hw * rng.uniform(0.5, 1.0)),
+                                                  (hl, hw), (-hl * rng.uniform(0.8, 1.0), hw * rng.uniform(0.5, 1.0)))]}
+    if long and k == "group":  # tractor + trailer
+        return {"k": "group", "m": [gen_shape(rng, False, rng.random() < 0.5, True)] +
+                                   [gen_shape(rng, False, True) for _ in range(rng.randint(0, 2))]}
     if k == "rect":
         return {"k": "rect", "l": r3(rng, 1.0, 6.0), "w": r3(rng, 0.6, 3.5), "c": c,
                 "o": r3(rng, -1.5, 1.5) if offc else 0.0}
@@ -568,6 +614,39 @@ def gen_shape(rng, allow_group=True, offc=False):
         return {"k": "poly", "v": [[round(c[0] + rr * math.cos(a), 3), round(c[1] + rr * math.sin(a), 3)]
                                    for rr, a in ((rng.uniform(0.8, 3.0), a) for a in angs)]}
     return {"k": "group", "m": [gen_shape(rng, False, True) for _ in range(rng.randint(1, 3))]}
+
+
+def wrap(a):
+    return round(math.atan2(math.sin(a), math.cos(a)), 3)
+
+
+def gen_states(rng, x, y, th, width):
+    """the poses [x, y, orientation] of the trajectory states that follow the initial pose.  A trajectory is made of
+    moves: drive (new position, old or new orientation), slide (new position, orientation kept), stand (pose repeated),
+    swivel (position kept, orientation changed: turning on the spot), back (an earlier pose again)."""
+    profile = rng.choice(["drive", "drive", "mixed", "mixed", "mixed", "swivel", "stand", "stop-turn-go"])
+    n = rng.randint(1, 4) if profile == "drive" else rng.randint(1, 6)
+    dy = rng.choice([0.0, 0.0, width / 2.0, -width / 3.0, width])
+    poses, px, py, pth = [], x, y, th
+    for i in range(n):
+        if profile == "mixed":
+            mv = rng.choice(["drive", "slide", "stand", "stand", "swivel", "swivel", "back"])
+        elif profile == "stop-turn-go":
+            mv = ["drive", "stand", "swivel", "swivel", "drive", "slide"][(i + (0 if n > 3 else 1)) % 6]
+        else:
+            mv = profile
+        if mv == "drive":
+            px, py = round(px + r3(rng, 0.5, 4.0), 3), round(py + dy * rng.random(), 3)
+            pth = rng.choice([th, r3(rng, -1.0, 1.0)])
+        elif mv == "slide":
+            px, py = round(px + r3(rng, -2.0, 4.0), 3), round(py + r3(rng, -1.0, 1.0) * width / 2.0, 3)
+        elif mv == "swivel":
+            pth = rng.choice([wrap(pth + rng.choice([-1, 1]) * rng.choice([0.3, 0.6, 1.0, math.pi / 2, 2.0, math.pi])),
+                              wrap(pth + r3(rng, -1.6, 1.6)), r3(rng, -3.1, 3.1), 0.0])
+        elif mv == "back":
+            px, py, pth = rng.choice([[x, y, th]] + poses)
+        poses.append([px, py, pth])
+    return poses
 
 
 def gen_case(rng):
@@ -592,22 +671,19 @@ def gen_case(rng):
                         rng.randint(0, segs) * seg_len])
         th = rng.choice([0.0, 0.0, r3(rng, -3.1, 3.1)])
         t0 = rng.choice([0, 0, 0, 1, 3])
-        od = {"id": 30 + i, "role": role, "shape": gen_shape(rng, True, rng.random() < 0.25), "t0": t0,
+        od = {"id": 30 + i, "role": role,
+              "shape": gen_shape(rng, True, rng.random() < 0.25, rng.random() < 0.33), "t0": t0,
               "init": [round(x, 3), round(y, 3), th]}
         if role == "traj":
-            states, px, py = [], x, y
-            dy = rng.choice([0.0, 0.0, width / 2.0, -width / 3.0, width])
-            for _ in range(rng.randint(1, 4)):
-                px, py = px + r3(rng, 0.5, 4.0), py + dy * rng.random()
-                states.append([round(px, 3), round(py, 3), rng.choice([th, r3(rng, -1.0, 1.0)])])
-            od["states"] = states
+            od["states"] = gen_states(rng, od["init"][0], od["init"][1], th, width)
         obs.append(od)
     case = {"net": nd, "obs": obs, "read": None, "ops": []}
-    if rng.random() < 0.33:
+    if rng.random() < 0.4:
         cand = [od["id"] for od in obs if od["role"] != "none"]
         if cand:
             case["read"] = {"fmt": rng.choice(["xml", "pb"]),
-                            "os": sorted(rng.sample(cand, rng.randint(1, len(cand))))}
+                            "os": sorted(rng.sample(cand, rng.randint(1, len(cand)))),
+                            "la": rng.random() < 0.75}
     return case
 
 
@@ -618,6 +694,7 @@ def make_chooser(rng, case):
     allow_centre = rng.random() < 0.2
     wild_remove = rng.random() < 0.1
     tmax = max(od["t0"] + len(od.get("states", [])) for od in case["obs"])
+    unassigned_file = bool(case.get("read")) and not case["read"].get("la", True)
 
     def chooser(snap, step):
         if step >= n_steps:
@@ -625,6 +702,8 @@ def make_chooser(rng, case):
         inside = sorted(set(snap["statics"]) | set(snap["dynamics"]))
         outside = [o for o in all_ids if o not in inside]
         r = rng.random()
+        if step == 0 and unassigned_file and r < 0.6:
+            return {"op": "assign", "ts": None, "ids": None, "c": False}
         if outside and (r < 0.3 or not inside):
             return {"op": "add", "o": rng.choice(outside)}
         if r < 0.7 and inside:
@@ -678,7 +757,7 @@ def coq_snap(snap):
 
 def coq_op(case, op):
     if op == "read":
-        return f"(ORead {zl(case['read']['os'])})"
+        return f"({'ORead' if case['read'].get('la', True) else 'OLoad'} {zl(case['read']['os'])})"
     if op["op"] == "add":
         return f"(OAdd {qz(op['o'])})"
     if op["op"] == "remove":
@@ -786,7 +865,7 @@ def move_probe():
 # ------------------------------------------------------------------------------------ driver
 def step_kind(case, op, exc):
     if op == "read":
-        return f"open({case['read']['fmt']}, lanelet_assignment=True)"
+        return read_name(case)
     k = op_name(case, op)
     if op["op"] == "assign":
         k += f"[ts={'None' if op['ts'] is None else 'list'},ids={'None' if op['ids'] is None else 'set'}]"
